@@ -516,7 +516,7 @@ static Case genBase(int tier, bool small)
         ep.stream = alphabet[e].second;
         ep.version = *rc::gen::element<uint8_t>(1, 1, 2, 255);
         ep.msgType = *rc::gen::element<uint8_t>(1, 1, 3, 0xFF, 2);
-        ep.startSeq = *rc::gen::element<uint16_t>(0, 1, 1000, 65530, 65534, 65535);
+        ep.startSeq = *rc::gen::element<uint16_t>(0, 1, 1000, 65530, 65534, 65535, 32760, 32765, 32766, 32767);  // also next to 0x7FFF -> 0x8000 (signed views of the counter)
         int nMsg = small ? *range<int>(1, 3) : *range<int>(3, tier ? 12 : 8);
         for (int m = 0; m < nMsg; ++m)
         {
